@@ -444,6 +444,9 @@ func (e *explorer) runOne(t task) []task {
 		return nil
 	}
 	e.points.Add(int64(len(c.choices) - len(t.prefix)))
+	if len(t.prefix) > 0 {
+		e.points.Add(1) // the alternative taken at the last prefix position is a step of its own
+	}
 	if pmsg != "" {
 		sig := PanicSignature(pmsg)
 		if e.cfg.PanicSig != nil {
